@@ -103,6 +103,7 @@ impl Visit {
 }
 
 fn par_case(rng: &mut Rng, rep: &mut Report, tag: &str, small: bool) {
+    heartbeat();
     let n = if small { *rng.pick(&[0usize, 3, 9, 15]) } else { *rng.pick(&[0usize, 1, 7, 15, 29, 30, 61, 113, 126, 250, 900, 4000]) };
     let phase = rng.below(6);
     let threads = if small { 1 + rng.usize(3) } else { 1 + rng.usize(16) };
@@ -407,6 +408,7 @@ pub fn serde(a: &Args, rep: &mut Report) {
         }
         // S: Default is needed for Deserialize, so the default Bh is used on both sides
         let (m, split) = build(&contents, phase, Bh::default(), &mut hr);
+        heartbeat();
         let tag = format!("serde-{}-s{}-i{}-h{}", flavour(), sh.seed, sh.index, h);
         let body = vec![("kind", "serde".to_string()), ("contents", format!("{contents:?}")), ("phase", phase.to_string())];
         rep.evaluations += 1;
